@@ -193,7 +193,9 @@ def ledger_run(ctx, tier):
                 q += ["-Q", os.path.join(COQ, x), "Verif"]
 
             def one(sh_name):
-                rc, o, e = sh(["coqc"] + q + [sh_name], cwd=cdir, timeout=2400)
+                # in an escalated failing-input search the monitors of the Go harness decide; the acceptors are bounded there
+                # (on a changed tree whose behaviour left the model they can need minutes and gigabytes per shard)
+                rc, o, e = sh(["coqc"] + q + [sh_name], cwd=cdir, timeout=240 if getattr(ctx, "search", False) else 2400)
                 return sh_name, rc, o + e
             with concurrent.futures.ThreadPoolExecutor(max_workers=14) as ex:
                 for sh_name, rc, txt in ex.map(one, summ["shards"]):
@@ -223,7 +225,7 @@ def ledger_run(ctx, tier):
 LEDGER_RULE = ("scenario kinds: random (below), truncate (>=1010-vertex chains and braids built on one real ledger, model state injected from the snapshot, "
                "synchronous truncate under a watchdog, balances / by-hash reads / re-submissions / follow-up transfers before vs after), perm (a fixed valid 6-vertex history "
                "delivered in seeded permutations with duplicates, interleaved proposals and retries, final ledger vs parents-first), load (real StreamDAG -> real LoadDag on a fresh "
-               "node, 5 stream corruptions, follow-up gossip on both). random: seeded histories on 1-3 real AccountingBook instances (proposals, gossip deliveries in any order, crafted vertices with arbitrary "
+               "node, 5 stream corruptions, follow-up gossip on both), repropose (an overdrawing transfer sealed in a tentative tip, dropped through a peer's vertex that names it as parent, proposed again). random: seeded histories on 1-3 real AccountingBook instances (proposals, gossip deliveries in any order, crafted vertices with arbitrary "
                "parents/weights/sealers/corruptions, replays, retries, trusted-set edits, cancellation after k polls, balance queries, LoadDag of the "
                "real stream); every step compared with the Coq model (result class + full snapshot projection); non-trivial = the history has at "
                "least one admitted and one rejected operation and a vertex with two distinct parents; distinct = different operation logs")
